@@ -47,15 +47,21 @@ Definition FUEL := 60%nat.
 (* 0: implementation = model of the repaired NaropFunction;  1: implementation = model of the code
    as it is (evaluates only Function instances among narop arguments) where the two differ;
    2: neither *)
-Definition P1 (f : num -> num) : op1 := (SPy, f).
-Definition D1 (f : num -> num) : op1 := (SDec, f).
-Definition R1 (f : num -> num) : op1 := (SRaw, f).
-Definition P2 (f : num -> num -> num) : op2 := (SPy, f).
-Definition D2 (f : num -> num -> num) : op2 := (SDec, f).
-Definition R2 (f : num -> num -> num) : op2 := (SRaw, f).
-Definition P3 (f : num -> list num -> num) : op3 := (SPy, f).
-Definition D3 (f : num -> list num -> num) : op3 := (SDec, f).
-Definition R3 (f : num -> list num -> num) : op3 := (SRaw, f).
+(* an argument that raised (NErr) never reaches the operator: the exception propagates *)
+Definition s1 (f : num -> num) : num -> num := fun x => match x with NErr => NErr | _ => f x end.
+Definition s2 (f : num -> num -> num) : num -> num -> num :=
+  fun x y => match x, y with NErr, _ | _, NErr => NErr | _, _ => f x y end.
+Definition s3 (f : num -> list num -> num) : num -> list num -> num :=
+  fun x l => if is_ok x && forallb is_ok l then f x l else NErr.
+Definition P1 (f : num -> num) : op1 := (SPy, s1 f).
+Definition D1 (f : num -> num) : op1 := (SDec, s1 f).
+Definition R1 (f : num -> num) : op1 := (SRaw, s1 f).
+Definition P2 (f : num -> num -> num) : op2 := (SPy, s2 f).
+Definition D2 (f : num -> num -> num) : op2 := (SDec, s2 f).
+Definition R2 (f : num -> num -> num) : op2 := (SRaw, s2 f).
+Definition P3 (f : num -> list num -> num) : op3 := (SPy, s3 f).
+Definition D3 (f : num -> list num -> num) : op3 := (SDec, s3 f).
+Definition R3 (f : num -> list num -> num) : op3 := (SRaw, s3 f).
 (* the implementation agrees with a model variant: same value, or the variant says that a numeric
    kernel ran on unevaluated objects (then anything may come out: an exception or a wrong value) *)
 Definition agrees (m i : den) : bool := den_eqb (den_norm m) i || den_has_objarg m.
@@ -427,6 +433,11 @@ def gen_cases(ctx, n_per):
                 shape = 'mixed'
             if not ok_pair(ka, kb, name):
                 continue
+            if ka in ('seqL', 'seqT') and name in ('lt', 'le', 'gt', 'ge', 'eq', 'ne'):
+                # comparisons have no __r*__ form: `plain < ChannelList` is ChannelList.__gt__(plain),
+                # i.e. list_binop with the operands mirrored (same values; differs only in which
+                # operand may be empty / raise IndexError): not modelled
+                ka = 'seqC'
             a, b = operand_pair(g, ka, kb, name)
             e = binop_expr(g, name, py, ['leaf', a], ['leaf', b])
             finish(g, e, shape + ':' + ka + ',' + kb)
@@ -439,9 +450,12 @@ def gen_cases(ctx, n_per):
         # comparisons only outermost: a bool fed to a kernel takes the kernel's float branch
         # (`type(x) is int` is false for bool), which is the kernels' business, not the lifting's
         CMP = ('lt', 'le', 'gt', 'ge', 'eq', 'ne')
-        (n1, p1), (n2, p2) = rng.choice([x for x in exact2 if x[0] not in CMP]), rng.choice(exact2)
-        if 'operand' == k and ({n1, n2} & {'eq', 'ne'}):
-            continue
+        # at most one product-like operator per expression: binary64 stays exact (< 2^53)
+        BIG = {'mul', 'ring1', 'ring2', 'ring3', 'ring4', 'difsqr', 'sumsqr', 'sqrsum', 'sqrdif', 'cubed', 'squared'}
+        (n1, p1) = rng.choice([x for x in exact2 if x[0] not in CMP])
+        (n2, p2) = rng.choice([x for x in exact2 if not (n1 in BIG and x[0] in BIG)])
+        if 'operand' == k and ({n1, n2} & set(CMP)):
+            continue          # Operand.__eq__ is not lifted; Operand < Rest resolves to the subclass
         a, b = operand_pair(g, k, rng.choice([k, 'num']), n1)
         inner = binop_expr(g, n1, p1, ['leaf', a], ['leaf', b])
         c = ['leaf', g.leaf(rng.choice([k, 'num']))]
@@ -449,7 +463,7 @@ def gen_cases(ctx, n_per):
             c = ['leaf', ['pat', c[1][1] or [nd(1)]]]
         e = binop_expr(g, n2, p2, inner, c) if rng.random() < 0.5 else binop_expr(g, n2, p2, c, inner)
         if rng.random() < 0.3 and n2 not in CMP:
-            u, pu = rng.choice([x for x in all1 if x[0] not in INEXACT1])
+            u, pu = rng.choice([x for x in all1 if x[0] not in INEXACT1 and not (x[0] in BIG and ({n1, n2} & BIG))])
             e = ['un', u, um(u, pu), e]
         finish(g, e, 'composed:' + k)
 
